@@ -18,6 +18,14 @@ func TestWorker(t *testing.T) {
 		t.Skip("no VERIF_JOB")
 	}
 	curT = t
+	if dl := os.Getenv("VERIF_DIVERGE_LOG"); dl != "" {
+		divergeLog = func(m string) {
+			if f, err := os.OpenFile(dl, os.O_APPEND|os.O_CREATE|os.O_WRONLY, 0o644); err == nil {
+				fmt.Fprintln(f, m)
+				f.Close()
+			}
+		}
+	}
 	b, err := os.ReadFile(jf)
 	if err != nil {
 		t.Fatal(err)
